@@ -470,13 +470,17 @@ def qcow2_snapshots(rng, ctx, nsnap: int = 2, ext: bool = False):
     views = []
     for i in range(nsnap + 1):
         kinds = [rng.choice("NZUCSu" if ext else "NZzUC") for _ in range(ncl)]
+        if i > 0 and rng.random() < 0.4:
+            # a snapshot from when the disk was smaller: nothing mapped in the tail
+            cut = rng.randrange(1, ncl + 1)
+            kinds = kinds[:cut] + ["U"] * (ncl - cut)
         views.append(wq.make_view(rng, size=size, cluster_bits=cb, kinds=kinds, extl2=ext, tag=rng.getrandbits(48)))
     metas = [{"id": str(i + 1).encode(), "name": f"snap {i}".encode() * rng.randrange(1, 3), "extra_size": rng.choice([0, 16, 24, 32, 40])} for i in range(nsnap)]
     # some images name a backing file that the caller explicitly opts out of: the active image and every snapshot view
     # then read zeros below their own clusters
     optout = rng.random() < 0.3
     img, _, meta = wq.build(rng, cluster_bits=cb, size=size, views=views, version=3, extl2=ext, placement="shuffle", snapshots_meta=metas, tuned_frac=0.1,
-                            backing_name=b"base image.qcow2" if optout else None)
+                            backing_name=b"base image.qcow2" if optout else None, snap_short_l1=rng.random() < 0.5)
     if optout:
         from dissect.hypervisor.disk.qcow2 import ALLOW_NO_BACKING_FILE
 
